@@ -505,6 +505,9 @@ GEN_PROGS = [
 ]
 
 
+SOURCE_SIGS = {"corpus_m16_shxl": "m16-shxl-uninitialised-extension-words"}
+
+
 def run(args):
     res = common.Result("C17", args.tier, args.seed, "proof")
     # ReportFlow: the information-flow inventory of the report options, regenerated from the clang AST of every translation
@@ -951,6 +954,11 @@ def run(args):
                        "report-flow inventory: syntactic, flow-insensitive taint over the typed AST of the build configuration in use; calls through "
                        "function pointers resolved by name, heap objects keyed by record type and field, libc by a table; the printf core and the "
                        "message emitters are summarised (Spec/ReportObjects.lean); it shows where report options CAN reach, it does not prove C semantics"]
+    # defects that make one particular regression source irreproducible whatever is compared: attributed by source
+    for f in spec_fail:
+        for src, sig in SOURCE_SIGS.items():
+            if f.get("sig") is None and f.get("tag", "").endswith(":" + src):
+                f["sig"] = sig
     return common.conclude(res, proof_problems, spec_fail, corr_fail, evaluations)
 
 
